@@ -652,7 +652,7 @@ def m0_selection(chk):
                             for e_ in _own_exprs(x):
                                 out.append("self._k2PhiPsi" in src(env.x(e_, use=x)))
                 return any(out)
-            if other[0] != f"self._mVals[{gi}]":
+            if other[0] != f"self._mVals[{gi}]".replace(" ", ""):
                 bad = (f"the m=0 operator is selected by `{other[0]}`, not by the mode number of the global mode index `{gi}`: on a process "
                        "whose block does not start at mode 0 the wrong mode gets the m=0 operator")
             elif uses0(zero_branch) and not uses0(rest) and usesK(rest):
